@@ -323,7 +323,7 @@ fn wait_with_timeout(child: &mut std::process::Child, limit: Duration) -> Option
 pub fn c09_one_in_child(ctx: &Ctx, case: &GenCase, limit: Duration) -> Result<Option<String>, String> {
     let path = format!("{}/work/c09-one-{}.json", ctx.verif_dir, std::process::id());
     std::fs::write(&path, serde_json::to_vec(case).unwrap()).map_err(|e| e.to_string())?;
-    let exe = std::env::current_exe().map_err(|e| e.to_string())?;
+    let exe = util::self_exe();
     let mut ch = Command::new(exe).args(["c09-one", &path]).stdout(Stdio::null()).stderr(Stdio::null()).spawn().map_err(|e| e.to_string())?;
     let st = wait_with_timeout(&mut ch, limit);
     let _ = std::fs::remove_file(&path);
@@ -346,13 +346,7 @@ pub fn run_c09(ctx: &Ctx) -> Outcome {
          confirmed alone in a fresh process), emission fuel 3*max(min,max)+8 never exhausted. Non-trivial = degenerate configuration (unsafe, \
          rate outside [0,1], min >= max, fewer than 64 entropy bytes, or >= 5000 opcodes).",
     );
-    let exe = match std::env::current_exe() {
-        Ok(e) => e,
-        Err(e) => {
-            out.inconclusive = Some(format!("current_exe: {}", e));
-            return out;
-        }
-    };
+    let exe = util::self_exe();
     let mut child = match Command::new(exe).args(["c09-child", &ctx.tier]).env("VERIF_SEED", ctx.seed.to_string()).env("VERIF_DIR", &ctx.verif_dir).stdout(Stdio::null()).spawn() {
         Ok(c) => c,
         Err(e) => {
@@ -618,7 +612,7 @@ pub fn run_c07(ctx: &Ctx) -> Outcome {
         out.inconclusive = Some("cannot write case list".into());
         return out;
     }
-    let exe = std::env::current_exe().unwrap();
+    let exe = util::self_exe();
     let children: Vec<_> = (0..3).map(|_| Command::new(&exe).args(["digest-cases", &path]).stdout(Stdio::piped()).stderr(Stdio::null()).spawn()).collect();
     for (k, ch) in children.into_iter().enumerate() {
         let Ok(ch) = ch else {
